@@ -337,9 +337,10 @@ def b_signature(tier):
     import pymbolic.primitives as p
     b = BoundedRun("argument-convention", rule="compile(e, listed) for e = weighted sum of k free variables (k = 0..5, names chosen so that name order differs from first-use order and "
                    "from hash order), every subset / permutation of listed variables (as names and as Variable nodes): calling with the listed variables first and the rest in "
-                   "name order returns the evaluator's value; the weights make every permutation of arguments observable", bound="k <= 5: all 326 listings", functions=["CompiledExpression._compile"])
-    pool_names = ["zeta", "b", "alpha", "m", "B"]
-    for k in range(0, 6):
+                   "name order returns the evaluator's value; the weights make every permutation of arguments observable", bound="k <= 5: all 326 listings of the first name pool, the listings of 1..5 names for two pools of names of math members / builtins", functions=["CompiledExpression._compile"])
+    # the second and third pool: names that mean something elsewhere (members of the math module, builtins) are ordinary variables of an expression
+    for pool_names, k in [(["zeta", "b", "alpha", "m", "B"], k_) for k_ in range(0, 6)] + [(["pi", "e", "tau", "gamma", "pow"], k_) for k_ in (1, 2, 3, 5)] + \
+            [(["len", "abs", "exp", "inf", "sum"], k_) for k_ in (1, 3, 5)]:
         names = pool_names[:k]
         e = p.Sum(tuple(p.Product((10 ** i, p.Variable(n))) for i, n in enumerate(names)) + (5,))
         vals = {n: i + 1 for i, n in enumerate(names)}
